@@ -18,7 +18,8 @@ func init() {
 			"R6.1 configuration reaches only whitespace and the statement ';': the writer's configuration and pending state are read only by *CodeWriter methods (no node printer can branch on them); every append to the output buffer is classified, and an append that is control-dependent on configuration or pending state writes whitespace by construction (a pending element — only ' ', '\\n', '\\t' are ever queued —, the indent string — whose producers yield spaces or a tab —, a whitespace constant), or is the ';' of the semicolon writer, or is comment replay (C15); text handed in by the printers is appended independently of configuration; " +
 			"R6.2 omitting semicolons is safe only if no statement can continue the previous line: for every statement list, the lexemes that can start a statement are intersected with the tokens that continue an expression after a line break (infix entries, backtick), and a keyword written after a child statement needs that child to end in ';' or '}' (genuine defects found here are listed as known findings); " +
 			"R6.3 a post-pass over the emitted text must not rewrite the lines of a multi-line literal (known finding: trailing spaces inside a backtick literal are trimmed); " +
-			"R6.4 in both pretty modes no two adjacent lexemes fuse (= R1.2 restricted to pretty output), so pretty and compact output lex to the same token sequence.",
+			"R6.4 in both pretty modes no two adjacent lexemes fuse (= R1.2 restricted to pretty output), so pretty and compact output lex to the same token sequence; " +
+			"R6.5 the flush of pending layout leaves nothing pending on any return (cleared, or found empty), so layout cannot be replayed in front of a later write.",
 		notDecided: []string{"equality of trees after re-parse", "byte-for-byte idempotence of formatting (where the pending-whitespace machine puts layout)", "that indentation changes only LEADING whitespace (R6.1 shows only whitespace can differ, not where)"},
 	})
 }
@@ -47,6 +48,115 @@ func runC06(c *Ctx) {
 	c.rule("R6.4", "no token fusion in pretty output, with and without semicolons (= R1.2 for the pretty modes)")
 	c.floor(200)
 	ruleNoFusion(c, t, g, "pretty", "pretty-nosemi")
+
+	c.rule("R6.5", "the flush of pending layout leaves nothing pending: every return of the flush method is behind a clearing of the buffer or behind a test that found it empty")
+	c.floor(1)
+	ruleFlushLeavesNothing(c)
+}
+
+// ruleFlushLeavesNothing: layout that stays pending across a text write is replayed in front of a LATER write — which
+// can be the inside of a literal that a printer writes in several pieces.
+func ruleFlushLeavesNothing(c *Ctx) {
+	c.buildSSA()
+	w := c.writerCfg()
+	if w == nil || w.pendings == nil {
+		c.unres("writer fields", token.NoPos, "pending buffer not found")
+		return
+	}
+	// the flush method: the writer method that walks the pending buffer element by element
+	var flush *ssa.Function
+	for _, f := range c.libFunctions("ast") {
+		if f.Signature.Recv() == nil || !namedIs(f.Signature.Recv().Type(), "ast", "CodeWriter") {
+			continue
+		}
+		allInstrs(f, func(_ *ssa.BasicBlock, _ int, in ssa.Instruction) {
+			if ia, ok := in.(*ssa.IndexAddr); ok {
+				if _, ok := isFieldLoad(ia.X, w.pendings); ok {
+					if _, isLoopIdx := ia.Index.(*ssa.Const); !isLoopIdx {
+						if _, isBin := ia.Index.(*ssa.BinOp); isBin || true {
+							// a dedup test reads pendings[n-1]: that index is len-1, a BinOp SUB; the walk uses a loop variable
+							if bo, ok := ia.Index.(*ssa.BinOp); ok && bo.Op == token.SUB {
+								return
+							}
+							flush = f
+						}
+					}
+				}
+			}
+		})
+	}
+	if flush == nil {
+		c.unres("flush method", token.NoPos, "no writer method walks the pending buffer")
+		return
+	}
+	clears := func(in ssa.Instruction) bool {
+		switch x := in.(type) {
+		case *ssa.Store:
+			if _, ok := isFieldAddr(x.Addr, w.pendings); ok {
+				if _, isApp := isBuiltinCall(x.Val, "append"); !isApp {
+					return true
+				}
+			}
+		case *ssa.Call:
+			cal := x.Call.StaticCallee()
+			if cal != nil && cal.Pkg == flush.Pkg && len(cal.Blocks) == 1 && cal != flush {
+				ok := false
+				for _, ci := range cal.Blocks[0].Instrs {
+					if st, isSt := ci.(*ssa.Store); isSt {
+						if _, isP := isFieldAddr(st.Addr, w.pendings); isP {
+							if _, isApp := isBuiltinCall(st.Val, "append"); !isApp {
+								ok = true
+							}
+						}
+					}
+				}
+				return ok
+			}
+		}
+		return false
+	}
+	emptyEdge := func(b *ssa.BasicBlock) (onTrue bool, ok bool) {
+		iff := blockIf(b)
+		if iff == nil {
+			return false, false
+		}
+		bo, isBo := iff.Cond.(*ssa.BinOp)
+		if !isBo {
+			return false, false
+		}
+		l, isLen := isBuiltinCall(bo.X, "len")
+		k, isK := constInt64(bo.Y)
+		if !isLen || !isK {
+			return false, false
+		}
+		if _, isP := isFieldLoad(l.Call.Args[0], w.pendings); !isP {
+			return false, false
+		}
+		switch {
+		case bo.Op == token.EQL && k == 0, bo.Op == token.LSS && k == 1, bo.Op == token.LEQ && k == 0:
+			return true, true
+		case bo.Op == token.NEQ && k == 0, bo.Op == token.GTR && k == 0, bo.Op == token.GEQ && k == 1:
+			return false, true
+		}
+		return false, false
+	}
+	n := 0
+	for _, r := range nonRecoverReturns(flush) {
+		n++
+		key := fmt.Sprintf("%s: return #%d", fnName(flush), n)
+		good := ""
+		for _, b := range flush.Blocks {
+			for _, in := range b.Instrs {
+				if clears(in) && (b == r.Block() || b.Dominates(r.Block())) {
+					good = "behind a clearing of the pending buffer"
+				}
+			}
+			if onTrue, ok := emptyEdge(b); ok && condEdgeDominates(b, onTrue, r.Block()) {
+				good = "behind a test that found the buffer empty"
+			}
+		}
+		c.check(good != "", key, r.Pos(), good, "the flush can return with layout still pending (neither cleared nor found empty on this path): it is written in front of a later text, e.g. between the pieces of a literal")
+	}
 }
 
 // ---- R6.1 -----------------------------------------------------------------------------------------
@@ -305,6 +415,27 @@ func ruleLayoutOnly(c *Ctx) {
 				case f.Object() != nil && f.Object().Exported() && isWriterMethod(f):
 					c.check(dep == "", key, call.Pos(), "text handed in by a printer, appended independently of configuration", "text handed in by a printer is appended only under a configuration-dependent condition ("+dep+"): the emitted tokens differ between output modes")
 				default:
+					// a private helper of the comment replay: every call site is in the replay method and hands it an element
+					// of that method's comment list
+					idx := -1
+					for i, q := range f.Params {
+						if q == p {
+							idx = i
+						}
+					}
+					if args, closed := c.argsAtCallers(f, idx); closed {
+						all := true
+						for _, a := range args {
+							ai, isInstr := a.(ssa.Instruction)
+							if !isInstr || !isReplayFn(ai.Parent()) || !isElemOfParam(a, ai.Parent()) {
+								all = false
+							}
+						}
+						if all {
+							c.check(dep == "", key, call.Pos(), "comment text handed over by the replay method (C15 R15.4/R15.5)", "comment text is appended only under a configuration-dependent condition ("+dep+")")
+							return
+						}
+					}
 					c.unres(key, call.Pos(), "appends the parameter of an unexported function that is not an emit primitive")
 				}
 				return
@@ -491,7 +622,16 @@ func isElemOfParam(v ssa.Value, f *ssa.Function) bool {
 	if !ok {
 		return false
 	}
-	p, ok := ia.X.(*ssa.Parameter)
+	base := ia.X
+	// a sub-slice of the parameter (comments[1:]) holds elements of the parameter
+	for i := 0; i < 3; i++ {
+		sl, ok := base.(*ssa.Slice)
+		if !ok {
+			break
+		}
+		base = sl.X
+	}
+	p, ok := base.(*ssa.Parameter)
 	return ok && p.Parent() == f
 }
 
